@@ -408,3 +408,77 @@ func init() {
 		}
 	})
 }
+
+func init() {
+	reg := registry["C17"]
+	reg.Meta.Rules["C17.5"] = "an error kept in a field is kept: where the result of a fallible call is stored into an error-typed field (an 'errors are values' accumulator), the store happens only where that field is known to be nil - otherwise the outcome of a later, successful call replaces an earlier failure"
+	reg.Rules = append(reg.Rules, func(c *Ctx, r *Result) {
+		n := 0
+		for _, fn := range c.LibFuncs() {
+			if !ioPackage(fn) || fn.Blocks == nil {
+				continue
+			}
+			instrs(fn, func(in ssa.Instruction) {
+				st, ok := in.(*ssa.Store)
+				if !ok || !isErrorType(st.Val.Type()) {
+					return
+				}
+				fa, ok := st.Addr.(*ssa.FieldAddr)
+				if !ok {
+					return
+				}
+				f, base := fieldOfAddr(fa)
+				if f == nil {
+					return
+				}
+				// only results of calls (possibly nil): storing a constructed error or nil is a different matter
+				src := st.Val
+				if ex, isEx := src.(*ssa.Extract); isEx {
+					src = ex.Tuple
+				}
+				if _, isCall := src.(*ssa.Call); !isCall {
+					return
+				}
+				if call := src.(*ssa.Call); isErrorConstructor(call) {
+					return
+				}
+				n++
+				// the field is nil here: dominated by the nil edge of a test of the same field
+				guarded := false
+				for _, b := range fn.Blocks {
+					ifi, ok := b.Instrs[len(b.Instrs)-1].(*ssa.If)
+					if !ok || b.Succs[0] == b.Succs[1] {
+						continue
+					}
+					bo, ok := ifi.Cond.(*ssa.BinOp)
+					if !ok || (bo.Op != token.EQL && bo.Op != token.NEQ) || !isNilConst(bo.Y) {
+						continue
+					}
+					ld, ok := isLoad(bo.X)
+					if !ok {
+						continue
+					}
+					fa2, ok := ld.X.(*ssa.FieldAddr)
+					if !ok {
+						continue
+					}
+					f2, base2 := fieldOfAddr(fa2)
+					if f2 != f || base2 != base {
+						continue
+					}
+					nilSide := b.Succs[0]
+					if bo.Op == token.NEQ {
+						nilSide = b.Succs[1]
+					}
+					if edgeDominates(b, nilSide, st.Block()) {
+						guarded = true
+					}
+				}
+				r.Check(guarded, "C17.5", c.Name(fn)+"#"+fieldKey(base.Type(), f)+"#error-field-is-sticky", c.InstrPos(st), "the call's error is stored into the field only where the field is nil; an unconditional store lets a later success erase an earlier failure")
+			})
+		}
+		if n == 0 {
+			r.Hold("C17.5", "module#no-error-accumulator-field", "", "no result of a fallible call is stored into an error-typed field")
+		}
+	})
+}
